@@ -313,6 +313,10 @@ def run_shard(spec):
         for k, (tag, prog) in enumerate(idioms.history_programs()):
             if k % (spec['parts'] * 4) == spec['part'] or (tag.startswith('history-two-functions') and k % spec['parts'] == spec['part']):
                 work += [(tag, A.render(prog), a, 2, False) for a in (idioms.HISTORY_ARGS[k % 4], idioms.HISTORY_ARGS[(k + 1) % 4])]
+        # scale grids: many locals / parameters / elements / labels / nesting levels / try blocks, both builds
+        for k, tag, prog, argsets in common.scale_items():
+            if k % (spec['parts'] * 2) == spec['part'] + spec['parts'] * (spec['seed'] % 2):
+                work += [(tag, A.render(prog), argsets[k % len(argsets)], (2, 3, 4, 8)[(k // spec['parts']) % 4], False)]
         if spec['part'] == 2 % spec['parts']:
             work += [('overloads that differ in constness only', CONST_OVERLOADS, [a], w, False) for a in ('5', '0') for w in (2, 3)]
             work += [('constant-length arrays in nested activations', NESTED_ARRAYS, [a], w, False) for a in ('123', '7', '0') for w in (2, 4)]
